@@ -26,6 +26,8 @@ type Cache struct {
 	Trace *[]string
 	// OnLocked, when set, is told the keys of every Lock/DualLock call that succeeded (lock ownership tracking).
 	OnLocked func(keys []*sop.LockKey)
+	// OnUnlock, when set, is told the keys of every Unlock call (after it executed).
+	OnUnlock func(keys []*sop.LockKey)
 	// OnSet, when set, is told keys and values of every SetStruct/SetStructs call that succeeded.
 	OnSet func(keys []string, values []interface{})
 }
@@ -153,7 +155,11 @@ func (c *Cache) Unlock(ctx context.Context, lk []*sop.LockKey) error {
 	if err != nil {
 		return err
 	}
-	return in.Unlock(ctx, lk)
+	err = in.Unlock(ctx, lk)
+	if c.OnUnlock != nil {
+		c.OnUnlock(lk)
+	}
+	return err
 }
 func (c *Cache) Set(ctx context.Context, key, value string, exp time.Duration) error {
 	in, err := c.pt("Set", []string{key})
